@@ -111,6 +111,7 @@ inductive Err
   | noHandlers                 -- "plugin %T does not implement any NRI request handlers"
   | unhandled (extra : Mask)   -- "internal error: unhandled events …"
   | handler (msg : Str)        -- whatever error the plugin's own method returned
+  | registration               -- "failed to register with NRI/Runtime: context deadline exceeded"
   deriving DecidableEq, Repr
 
 /-- `(*stub).setupHandlers` -/
@@ -182,7 +183,7 @@ structure Dyn (β : Type) where
   /-- `stub.syncReq`: pods and containers collected from `More` chunks -/
   syncReq : Option (List β × List β) := none
   /-- `stub.registrationTimeout`, `stub.requestTimeout` in nanoseconds
-      (defaults 5 s and 2 s until Configure overwrites them) -/
+      (defaults 5 s and 2 s; Configure takes over the values the runtime passes) -/
   regTimeoutNs : Int := 5000000000
   reqTimeoutNs : Int := 2000000000
   deriving Repr
@@ -271,11 +272,17 @@ def synchronize {β : Type} (h : Handlers) (b : Behaviour β) (d : Dyn β)
       let r := b m a
       ⟨[⟨m, a⟩], reply r (.synchronize r.updates false), { d with syncReq := none }⟩
 
+/-- `(*stub).Configure`, first lines: a timeout is taken over (milliseconds → nanoseconds) only
+    when the request carries one (> 0); otherwise the stub keeps its current value. -/
+def takeTimeouts {β : Type} (d : Dyn β) (regMs reqMs : Int) : Dyn β :=
+  { d with regTimeoutNs := if regMs > 0 then regMs * 1000000 else d.regTimeoutNs,
+           reqTimeoutNs := if reqMs > 0 then reqMs * 1000000 else d.reqTimeoutNs }
+
 /-- The plugin service of the stub: one request in, the plugin methods invoked (in order),
     the reply or error the runtime end sees, and the new mutable state. -/
 def dispatch {β : Type} (h : Handlers) (b : Behaviour β) (d : Dyn β) : Request β → Outcome β
   | .configure config runtime version regMs reqMs =>
-    let d := { d with regTimeoutNs := regMs * 1000000, reqTimeoutNs := reqMs * 1000000 }
+    let d := takeTimeouts d regMs reqMs
     let (calls, r) := configure h b config runtime version
     ⟨calls, r.map .configure, d⟩
   | .synchronize pods ctrs more => synchronize h b d pods ctrs more
@@ -319,8 +326,11 @@ def run {β : Type} (h : Handlers) (b : Behaviour β) : Dyn β → List (Request
 
 The start/stop machine itself is C16's (`StubSession.lean`). What matters here is which part
 of the stub a session can change for the next one: `(*stub).Configure` assigns the two
-timeouts and nothing else — `stub.handlers` and `stub.events` are written by `New` only — and
-`stub.close()` forgets half-collected synchronisation chunks. -/
+timeouts (those the runtime actually passes) and nothing else — `stub.handlers` and
+`stub.events` are written by `New` only — and `stub.close()` forgets half-collected
+synchronisation chunks. `Start` registers under `context.WithTimeout(ctx,
+stub.registrationTimeout)`: with a timeout that is not positive the deadline has passed
+before the call is made, registration fails and nothing of the session happens. -/
 
 /-- what outlives a session: the handler table with the implemented-events mask, and `Dyn` -/
 structure StubState (β : Type) where
@@ -350,20 +360,59 @@ def runReqs {β : Type} (h : Handlers) : Dyn β → List (Behaviour β × Reques
     let (os, d') := runReqs h o.dyn rest
     (o :: os, d')
 
-/-- `Start` … `Stop()` / `connClosed()`: `close()` resets `syncReq` when the stub had started -/
-def runSession {β : Type} (st : StubState β) (s : Session β) : SessionOut β × StubState β :=
-  let o := dispatch st.handlers s.cfgB st.dyn (.configure s.config s.runtime s.version s.regMs s.reqMs)
+/-- `stub.register`: the call is made under the stub's current registration timeout -/
+def registers {β : Type} (d : Dyn β) : Bool := decide (0 < d.regTimeoutNs)
+
+/-- the rest of a session once the Configure request has been handled (outcome `o`):
+    `Start` fails on a configuration error; otherwise requests, then `Stop()` /
+    `connClosed()`, whose `close()` resets `syncReq` -/
+def finishSession {β : Type} (st : StubState β) (s : Session β) (o : Outcome β) : SessionOut β × StubState β :=
   match o.result with
   | .error _ => (⟨o, []⟩, { handlers := st.handlers, dyn := o.dyn })
   | .ok _ =>
     let (outs, d) := runReqs st.handlers o.dyn s.reqs
     (⟨o, outs⟩, { handlers := st.handlers, dyn := { d with syncReq := none } })
 
+/-- `Start` … `Stop()` / `connClosed()` -/
+def runSession {β : Type} (st : StubState β) (s : Session β) : SessionOut β × StubState β :=
+  if registers st.dyn then
+    finishSession st s
+      (dispatch st.handlers s.cfgB st.dyn (.configure s.config s.runtime s.version s.regMs s.reqMs))
+  else (⟨⟨[], .error .registration, st.dyn⟩, []⟩, st)
+
 def runSessions {β : Type} : StubState β → List (Session β) → List (SessionOut β) × StubState β
   | st, [] => ([], st)
   | st, s :: rest =>
     let (o, st1) := runSession st s
     let (os, st2) := runSessions st1 rest
+    (o :: os, st2)
+
+/-- what the runtime end and the plugin can see of an outcome: invocations and reply -/
+def Outcome.visible {β : Type} (o : Outcome β) : List (Call β) × Except Err (Reply β) := (o.calls, o.result)
+
+def SessionOut.visible {β : Type} (o : SessionOut β) :
+    (List (Call β) × Except Err (Reply β)) × List (List (Call β) × Except Err (Reply β)) :=
+  (o.cfg.visible, o.outs.map Outcome.visible)
+
+/-! ### The unrepaired Configure (before fix 31d2c1d), kept for the witness theorem only:
+    both timeouts were overwritten with whatever the request carried, zero included. -/
+
+def configureUnfixed {β : Type} (h : Handlers) (b : Behaviour β) (d : Dyn β) (config runtime version : Str)
+    (regMs reqMs : Int) : Outcome β :=
+  let d := { d with regTimeoutNs := regMs * 1000000, reqTimeoutNs := reqMs * 1000000 }
+  let (calls, r) := configure h b config runtime version
+  ⟨calls, r.map .configure, d⟩
+
+def runSessionUnfixed {β : Type} (st : StubState β) (s : Session β) : SessionOut β × StubState β :=
+  if registers st.dyn then
+    finishSession st s (configureUnfixed st.handlers s.cfgB st.dyn s.config s.runtime s.version s.regMs s.reqMs)
+  else (⟨⟨[], .error .registration, st.dyn⟩, []⟩, st)
+
+def runSessionsUnfixed {β : Type} : StubState β → List (Session β) → List (SessionOut β) × StubState β
+  | st, [] => ([], st)
+  | st, s :: rest =>
+    let (o, st1) := runSessionUnfixed st s
+    let (os, st2) := runSessionsUnfixed st1 rest
     (o :: os, st2)
 
 /-! ## Specification vocabulary (what the runtime *means* by each event) -/
